@@ -979,6 +979,10 @@ impl Translator {
                         self.translate_expr(array, offset_table, mono, st);
                         self.translate_expr(index, offset_table, mono, st);
                         self.emit(st, Instr::GetIndex(Reg::Top, Reg::Top));
+                        // arrays of void use dummy values
+                        if self.get_ty(mono, expr.node()).unwrap() == SolvedType::Void {
+                            self.emit(st, Instr::Pop);
+                        }
                     }
                     _ => {
                         // interface method Index::index_get()
@@ -1802,6 +1806,14 @@ impl Translator {
             }
             IntrinsicOperation::ArrayGet => {
                 self.emit(st, Instr::GetIndex(Reg::Top, Reg::Top));
+                // arrays of void use dummy values
+                let SolvedType::Function(_, ret_ty) = self.get_ty(mono, func_node.clone()).unwrap()
+                else {
+                    unreachable!()
+                };
+                if *ret_ty == SolvedType::Void {
+                    self.emit(st, Instr::Pop);
+                }
             }
             IntrinsicOperation::ArraySet => {
                 self.emit(st, Instr::SetIndex(Reg::Top, Reg::Top));
@@ -2480,8 +2492,13 @@ impl Translator {
                 self.emit(st, Instr::PushInt(0 as AbraInt));
                 self.emit(st, Instr::EqualInt(Reg::Top, Reg::Top, Reg::Top));
                 self.emit(st, Instr::JumpIfFalse(end_label_iter.clone()));
-                let mut or_pat_decisions = HashSet::default();
-                self.handle_pat_binding(pat, offset_table, st, mono, &mut or_pat_decisions);
+                if self.get_ty(mono, pat.node()).unwrap() == SolvedType::Void {
+                    // a void item is not bound to anything; discard the variant's dummy payload
+                    self.emit(st, Instr::Pop);
+                } else {
+                    let mut or_pat_decisions = HashSet::default();
+                    self.handle_pat_binding(pat, offset_table, st, mono, &mut or_pat_decisions);
+                }
                 st.loop_stack.push(EnclosingLoop {
                     start_label: start_label.clone(),
                     end_label: end_label_break.clone(),
